@@ -35,6 +35,9 @@ type typeDictionary struct {
 	// a typedef defined in terms of itself is reported rather than
 	// resolved forever.
 	resolving map[*Typedef]bool
+	// typeErrs holds, for the types that were resolved with errors, those
+	// errors.
+	typeErrs map[*Type][]error
 }
 
 func newTypeDictionary() *typeDictionary {
@@ -42,6 +45,7 @@ func newTypeDictionary() *typeDictionary {
 		dict:       map[Node]map[string]*Typedef{},
 		identities: identityDictionary{dict: map[string]resolvedIdentity{}},
 		resolving:  map[*Typedef]bool{},
+		typeErrs:   map[*Type][]error{},
 	}
 }
 
@@ -187,8 +191,16 @@ func (t *Typedef) resolve(d *typeDictionary) []error {
 // cannot be resolved then one or more errors are returned.
 func (t *Type) resolve(d *typeDictionary) (errs []error) {
 	if t.YangType != nil {
-		return nil
+		return d.typeErrs[t]
 	}
+	// The resolved type is memoised before its restrictions are checked.
+	// Remember the errors found after that point with it, so that resolving
+	// the type again reports them again.
+	defer func() {
+		if t.YangType != nil && len(errs) != 0 {
+			d.typeErrs[t] = errs
+		}
+	}()
 
 	// If t.Name is a base type then td will not be nil, otherwise
 	// td will be nil and of type *Typedef.
